@@ -37,7 +37,8 @@ Dispatch(e) == LET k == e.k  a == e.a IN
     \/ e.op = "Read"       /\ Read(k, a.form)
     \/ e.op = "Assign"     /\ Assign(k, a.v, a.cat)
     \/ e.op = "AssignComp" /\ AssignComp(k, a.i, a.v, a.form)
-    \/ e.op = "CopyW"      /\ CopyW(k, a.j)
+    \/ e.op = "CopyW"      /\ CopyW(k, a.j, a.form)
+    \/ e.op = "ValueOr"    /\ ValueOr(k, a.v, a.d, a.form)
     \/ e.op = "MoveW"      /\ MoveW(k, a.j)
     \/ e.op = "AssignW"    /\ AssignW(k, a.j, a.mv)
     \/ e.op = "Swap"       /\ Swap(k, a.j, a.how)
